@@ -782,6 +782,10 @@ def _short(t, n=400):
 # --------------------------------------------------------------------------------------
 # proxies
 
+def _isnan(o):
+    return isinstance(o, (float, _np.floating)) and o != o
+
+
 def tz(o):
     """z3 Real term of a number-like object, NotImplemented otherwise."""
     if isinstance(o, SV):
@@ -876,6 +880,8 @@ class SV:
         raise IndexError(k)
 
     def _b(s, o, f):
+        if _isnan(o):
+            return _np.float64('nan')     # not-a-number partners (nan_domain mode) absorb symbolic reals
         if isinstance(o, (list, tuple)):
             return _np.asarray([f_apply(s, x, f) for x in o], dtype=object)
         if isinstance(o, _np.ndarray):
@@ -907,6 +913,8 @@ class SV:
         return s._b(o, lambda a, b: b * a)
 
     def __truediv__(s, o):
+        if _isnan(o):
+            return _np.float64('nan')
         if isinstance(o, (list, tuple)):
             return _np.asarray([s / x for x in o], dtype=object)
         if isinstance(o, _np.ndarray):
@@ -920,6 +928,8 @@ class SV:
         return sdiv(s.t, t)
 
     def __rtruediv__(s, o):
+        if _isnan(o):
+            return _np.float64('nan')
         if isinstance(o, _np.ndarray):
             if o.shape == ():
                 o = o.item()
@@ -937,6 +947,8 @@ class SV:
         return s
 
     def __pow__(s, o):
+        if _isnan(o):
+            return _np.float64('nan')
         if isinstance(o, (SV,)):
             co = const_of(z3.simplify(o.t))
             if co is None:
@@ -963,6 +975,8 @@ class SV:
         return NotImplemented
 
     def __rpow__(s, o):
+        if _isnan(o):
+            return _np.float64('nan')
         t = tz(o)
         if t is NotImplemented:
             return t
@@ -972,6 +986,8 @@ class SV:
         return SV(z3.If(s.t >= 0, s.t, -s.t), s.sz + 2)
 
     def _c(s, o, f):
+        if _isnan(o):
+            return False
         if isinstance(o, _np.ndarray) and o.shape != ():
             return NotImplemented
         t = tz(o)
@@ -1142,8 +1158,15 @@ def opaque(fn, *args):
                    'arcsin': lambda: z3.And(a >= -1, a <= 1), 'arccos': lambda: z3.And(a >= -1, a <= 1),
                    'arctanh': lambda: z3.And(a > -1, a < 1), 'pow': lambda: a > 0}.get(fn)
             if dom is not None:
-                c.pc.append(dom())
-                c.domain.append(a)
+                if c.o.get('nan_domain'):
+                    # floating-point semantics of the domain: outside it the function returns not-a-number (one more path) instead of being excluded
+                    if not c.branch(dom()):
+                        del c.memo[key]
+                        del c.opq[v.decl().name()]
+                        return _np.float64('nan')
+                else:
+                    c.pc.append(dom())
+                    c.domain.append(a)
     return SV(c.memo[key])
 
 
